@@ -564,6 +564,31 @@ pub fn op_dec(args: &[&str]) -> String {
                         if it.tree() != tree {
                             acc_ok = false;
                         }
+                        // a caller that keeps polling after a failed READ (log-and-continue, collect) must keep getting
+                        // errors, never a panic; (after a hash mismatch the pending-hash stack is unbalanced by design:
+                        // not polled)
+                        if t.starts_with("ParentNotFound") || t.starts_with("LeafNotFound") || t.starts_with("Io(") {
+                            for _ in 0..6 {
+                                let r = std::panic::catch_unwind(std::panic::AssertUnwindSafe(|| match it.next() {
+                                    None => 0,
+                                    Some(Ok(_)) => 1,
+                                    Some(Err(_)) => 2,
+                                }));
+                                match r {
+                                    Err(_) => {
+                                        acc_ok = false;
+                                        break;
+                                    }
+                                    Ok(0) => break,
+                                    Ok(1) => {
+                                        // an item after the stream has already ended cannot be a verified one
+                                        acc_ok = false;
+                                        break;
+                                    }
+                                    Ok(_) => {}
+                                }
+                            }
+                        }
                         break;
                     }
                 }
